@@ -1,10 +1,17 @@
 ------------------------------- MODULE TxnGen -------------------------------
 (* Behaviour generator for Txn (interactive mode: C05, C08, C20).            *)
 EXTENDS TxnMC, Json
-CONSTANTS Depth, GenActs   \* GenActs: the statements this generator draws from (all, or a family in focus)
-VARIABLE hist
-GenInit == Init /\ hist = <<[act |-> "init", disk |-> disk]>>
-GenNext == /\ Len(hist) <= Depth
-           /\ \E a \in GenActs : Do(a) /\ hist' = Append(hist, [a |-> a, exp |-> out'])
-Emit == (Len(hist) = Depth + 1) => PrintT(<<"TRACE", ToJson(hist)>>)
+CONSTANTS Depth, GenActs,   \* GenActs: the statements this generator draws from (all, or a family in focus)
+          Shape(_, _)      \* Shape(a, i): statement a may stand at position i (a family may fix how its walks begin)
+VARIABLES hist, done
+GenInit == Init /\ hist = <<[act |-> "init", disk |-> disk]>> /\ done = FALSE
+\* (the last step only marks the behaviour as complete: TLC's simulation evaluates the constraint on every candidate successor,
+\* so that printing at the last statement would emit one behaviour per candidate - sixty copies of one walk that differ in
+\* their last statement; this way every emitted behaviour is a walk of its own)
+GenNext == \/ /\ Len(hist) <= Depth /\ ~done
+              /\ \E a \in GenActs : Shape(a, Len(hist)) /\ Do(a) /\ hist' = Append(hist, [a |-> a, exp |-> out'])
+              /\ UNCHANGED done
+           \/ /\ Len(hist) = Depth + 1 /\ ~done
+              /\ done' = TRUE /\ UNCHANGED <<vars, hist>>
+Emit == done => PrintT(<<"TRACE", ToJson(hist)>>)
 =============================================================================
